@@ -1,9 +1,19 @@
 import PqModel.Dremel
 import PqModel.Pages
+import PqModel.FileModel
+import PqModel.FileCodecs
+import PqModel.Props.C04Rle
+import PqModel.Props.C04Plain
+import PqModel.Props.C04Delta
 
-/-! # C01 — Write then read returns exactly the rows that were written -/
+/-! # C01 — Write then read returns exactly the rows that were written
+
+The composition theorem `roundtrip` is stated over the nondeterministic writer model and the reader
+model of `PqModel/FileModel.lean`; the codecs are parameters with round-trip hypotheses
+(`ColCodec.OK`) which `int64Codec_ok` discharges from the C04 theorems for an INT64 column
+(RLE levels, PLAIN or DELTA_BINARY_PACKED values, PLAIN dictionary page, RLE_DICTIONARY indexes). -/
 namespace PqModel.Props.C01
-open PqModel.Dremel PqModel.Pages
+open PqModel.Dremel PqModel.Pages PqModel.FileModel PqModel.Plain
 
 /-- shredding a row and assembling it back is the identity (every schema, every conforming value) -/
 theorem row_roundtrip (n : Node) (v : Val) (hwf : wfN n = true) (hc : confN n v = true) :
@@ -21,5 +31,192 @@ theorem column_roundtrip {α β} (enc : List α → β) (dec : β → Option (Li
     (hrt : ∀ p, dec (enc p) = some p) (xs : List α) (cuts : List Nat) :
     readPages dec ((cutAt cuts xs).map enc) = some xs :=
   readPages_write enc dec hrt xs cuts
+
+/-! ## supporting lemmas of the composition -/
+
+/-- Growing dictionary: the indexes handed out for a batch `xs` (dictionary `d` before the batch,
+    first-occurrence order), looked up in ANY later state `D` of the dictionary — after any number of
+    further batches, `D` extends the state right after this batch — give `xs` back. -/
+theorem dict_lookup_index (d xs D : List Nat) (h : (insertAll d xs).1 <+: D) :
+    lookupAll D (insertAll d xs).2 = some xs :=
+  lookup_insertAll d xs D h
+example : (insertAll [5] [7, 5, 7, 9]).1 <+: (insertAll (insertAll [5] [7, 5, 7, 9]).1 [1, 9]).1 := by decide
+
+/-- The mixed dictionary/plain column chunk: for ANY page cuts and ANY number of leading
+    dictionary-encoded pages (the column falls back to its value encoding for the rest of the chunk,
+    at the latest when the dictionary would exceed `dictLimit`), a column chunk reads back as the
+    stream it was written from. -/
+theorem chunk_roundtrip {β γ} (c : ColCodec β γ) (B : Nat) (hc : c.OK B) (lv : Nat × Nat)
+    (h1 : lv.1 ≤ B) (h2 : lv.2 ≤ B) (strict : Bool) (cfg : ChunkCfg) (s : List Triple)
+    (hs : StreamOK c lv s) (ha : strict = true → (cutAt cfg.cuts s).all pageAligned = true) :
+    readChunk strict c lv (writeChunk c lv cfg s) = some s :=
+  readChunk_writeChunk hc h1 h2 strict cfg s hs ha
+
+/-- Splitting a concatenation of per-row segments back at the `rep = 0` boundaries returns the
+    segments. `SegCols m 0 d s`: `s` has `m` columns, each non-empty, starting with `rep = 0` and
+    with no other `rep = 0` — what `shredN` produces for a row (`shredN_spec`). -/
+theorem splitRows_concat (m d : Nat) (hm : 0 < m) (segs : List Cols) (h : ∀ s ∈ segs, SegCols m 0 d s) :
+    splitRows (joinSegs m segs) = segs :=
+  splitRows_joinSegs hm segs h
+example : SegCols 2 0 0 [[⟨some 1, 0, 0⟩], [⟨some 2, 0, 1⟩, ⟨none, 1, 0⟩]] :=
+  ⟨rfl, by
+    intro c hc
+    simp only [List.mem_cons, List.not_mem_nil, or_false] at hc
+    rcases hc with rfl | rfl
+    · exact ⟨_, _, rfl, rfl, Nat.le_refl _, by simp⟩
+    · exact ⟨_, _, rfl, rfl, Nat.zero_le _, by simp⟩⟩
+
+/-- The partition into row groups is invisible: concatenating per column the streams of the row
+    groups gives the streams of all the rows. -/
+theorem rowgroups_concat (m : Nat) (gss : List (List Cols)) (h : ∀ gs ∈ gss, ∀ s ∈ gs, s.length = m) :
+    joinSegs m (gss.map (joinSegs m)) = joinSegs m gss.flatten :=
+  joinSegs_flatten m gss h
+example : ∀ gs ∈ ([[[[⟨some 1, 0, 0⟩]]], [], [[[⟨none, 0, 0⟩]], [[⟨some 3, 0, 0⟩]]]] : List (List Cols)),
+    ∀ s ∈ gs, s.length = 1 := by
+  decide
+
+/-- Shredding a conforming value keeps every level within the column's maxima, and a value is
+    present exactly at the maximum definition level (what lets a reader place the non-null values). -/
+theorem shred_levels (n : Node) (v : Val) (hc : confN n v = true) :
+    Pairs LvOK (levelsN n 0 0) (shredN n 0 0 0 v) :=
+  shredN_levels n 0 0 0 v (Nat.le_refl _) hc
+
+/-! ## the composition theorem -/
+
+/-- **C01, model level.** For every well-formed schema `n`, rows conforming to it, partition of the
+    rows into row groups (`gs`: row counts), per row group and column ANY page cuts at row boundaries
+    and ANY number of leading dictionary pages before the fallback (`gs[i].col j`), and per-column
+    codecs `cd j` (level codec, value codec, dictionary page codec, index codec, compressor)
+    satisfying the round-trip hypotheses `ColCodec.OK` on the schema's levels (`≤ B`) and on the
+    column's value domain: reading the written file returns exactly the rows (as `Val`: nulls,
+    empty lists, nesting). The reader rejects pages that do not start at a row boundary. -/
+theorem roundtrip {β γ} (n : Node) (cd : Nat → ColCodec β γ) (B : Nat) (gs : List GroupCfg) (rows : List Val)
+    (hwf : wfN n = true) (hconf : ∀ v ∈ rows, confN n v = true)
+    (hB : levelsBounded B n = true) (hcd : ∀ j, j < leavesN n → (cd j).OK B)
+    (hdom : ∀ v ∈ rows, valsIn (fun j => (cd j).okV) 0 (shredN n 0 0 0 v) = true)
+    (hcuts : cutsAligned n gs rows = true) :
+    readFile n cd (writeFile n cd gs rows) = some rows :=
+  readFileWith_writeFile true n cd B gs rows hwf hconf hB hcd hdom (fun _ => hcuts)
+
+/-- The same for a reader that does not look at page alignment: then the cuts may be ANY positions
+    (the row-boundary discipline of the writer is not needed for the round trip itself). -/
+theorem roundtrip_any_cuts {β γ} (n : Node) (cd : Nat → ColCodec β γ) (B : Nat) (gs : List GroupCfg)
+    (rows : List Val) (hwf : wfN n = true) (hconf : ∀ v ∈ rows, confN n v = true)
+    (hB : levelsBounded B n = true) (hcd : ∀ j, j < leavesN n → (cd j).OK B)
+    (hdom : ∀ v ∈ rows, valsIn (fun j => (cd j).okV) 0 (shredN n 0 0 0 v) = true) :
+    readFileWith false n cd (writeFile n cd gs rows) = some rows :=
+  readFileWith_writeFile false n cd B gs rows hwf hconf hB hcd hdom (fun h => by simp at h)
+
+/-! ## the hypotheses are satisfiable: concrete C04 codecs -/
+
+/-- The concrete INT64 column codec built from the C04 models satisfies every codec hypothesis, for
+    schemas whose levels fit a byte: levels by `rle_roundtrip_levels`, PLAIN values and the dictionary
+    page by `plain_roundtrip_int64`, DELTA_BINARY_PACKED values by `delta64_roundtrip`, dictionary
+    indexes (below `2^32`) by `rle_roundtrip_dict`. Only the compressor stays a hypothesis (C20). -/
+theorem int64Codec_ok (delta lvComp : Bool) (comp : List Nat → List Nat) (decomp : List Nat → Option (List Nat))
+    (hcmp : ∀ b, decomp (comp b) = some b) : (int64Codec delta lvComp comp decomp).OK 255 := by
+  have hplain : ∀ cnt xs, cnt = xs.length → (∀ x ∈ xs, isInt64 x = true) →
+      plainInt64Dec cnt (plainInt64Enc xs) = some xs := by
+    intro cnt xs hcnt hx
+    have hb : ((encFixedBV 8 (xs.map (BitVec.ofNat 64))).map UInt8.toNat).map UInt8.ofNat =
+        encFixedBV 8 (xs.map (BitVec.ofNat 64)) := by
+      rw [List.map_map]; exact map_id_of (fun b _ => by simp)
+    have hv : (xs.map (BitVec.ofNat 64)).map BitVec.toNat = xs := by
+      rw [List.map_map]
+      exact map_id_of (fun x hx' => by
+        have := hx x hx'
+        simp only [isInt64, decide_eq_true_eq] at this
+        simp [BitVec.toNat_ofNat, Nat.mod_eq_of_lt this])
+    simp only [plainInt64Dec, plainInt64Enc, hb, C04Plain.plain_roundtrip_int64, Option.map_some, hv,
+      Option.bind_some, hcnt, if_true]
+  have hdelta : ∀ cnt xs, cnt = xs.length → (∀ x ∈ xs, isInt64 x = true) →
+      deltaInt64Dec cnt (deltaInt64Enc xs) = some xs := by
+    intro cnt xs hcnt hx
+    have hv : (xs.map (BitVec.ofNat 64)).map BitVec.toNat = xs := by
+      rw [List.map_map]
+      exact map_id_of (fun x hx' => by
+        have := hx x hx'
+        simp only [isInt64, decide_eq_true_eq] at this
+        simp [BitVec.toNat_ofNat, Nat.mod_eq_of_lt this])
+    simp only [deltaInt64Dec, deltaInt64Enc, C04Delta.delta64_roundtrip, List.length_map, hcnt, if_true, hv]
+  refine ⟨?_, ?_, ?_, ?_, hcmp, ?_⟩
+  · intro m xs hm hx
+    have hw : Rle.maxLen [m] ≤ 8 := Rle.maxLen_le [m] 8 (by
+      intro x hx'
+      simp only [List.mem_singleton] at hx'
+      subst hx'
+      exact Nat.lt_of_le_of_lt hm (by decide))
+    have hlt : ∀ x ∈ xs, x < 2 ^ Rle.maxLen [m] := fun x hx' =>
+      Nat.lt_of_le_of_lt (hx x hx') (Rle.lt_pow_maxLen [m] m (by simp))
+    have h := C04Rle.rle_roundtrip_levels (Rle.maxLen [m]) xs xs.length hw hlt (Nat.le_refl _)
+    simp only [int64Codec, rleEncL, rleDecL]
+    cases he : Rle.encodeLevels (Rle.maxLen [m]) xs with
+    | error e => rw [he] at h; simp [bind, Except.bind] at h
+    | ok bs =>
+      rw [he] at h
+      simp only [bind, Except.bind, List.take_length] at h
+      simp only [h]
+  · intro xs hx
+    cases delta with
+    | false => exact hplain _ xs rfl hx
+    | true => exact hdelta _ xs rfl hx
+  · intro xs hx
+    exact hplain _ xs rfl hx
+  · intro xs hx
+    have h := C04Rle.rle_roundtrip_dict xs xs.length hx (Nat.le_refl _)
+    simp only [int64Codec, rleIdxEnc, rleIdxDec]
+    cases he : Rle.encodeDict xs with
+    | error e => rw [he] at h; simp [bind, Except.bind] at h
+    | ok bs =>
+      rw [he] at h
+      simp only [bind, Except.bind, List.take_length] at h
+      simp only [h]
+  · intro p
+    cases lvComp <;> simp [int64Codec, packSections, unpackSections, hcmp]
+example : ∀ b : List Nat, (some : List Nat → Option (List Nat)) (id b) = some b := fun _ => rfl
+
+/-- `roundtrip` with every codec hypothesis discharged by the C04 theorems: files of INT64 columns
+    (column `j` DELTA_BINARY_PACKED when `delta j`, PLAIN otherwise; dictionary with fallback as the
+    cut/fallback choices say), RLE levels, any lossless compressor. -/
+theorem roundtrip_int64 (n : Node) (delta : Nat → Bool) (lvComp : Bool) (comp : List Nat → List Nat)
+    (decomp : List Nat → Option (List Nat)) (hcmp : ∀ b, decomp (comp b) = some b)
+    (gs : List GroupCfg) (rows : List Val)
+    (hwf : wfN n = true) (hconf : ∀ v ∈ rows, confN n v = true) (hB : levelsBounded 255 n = true)
+    (hdom : ∀ v ∈ rows, valsIn (fun _ => isInt64) 0 (shredN n 0 0 0 v) = true)
+    (hcuts : cutsAligned n gs rows = true) :
+    readFile n (fun j => int64Codec (delta j) lvComp comp decomp) (writeFile n (fun j => int64Codec (delta j) lvComp comp decomp) gs rows) =
+      some rows :=
+  roundtrip n _ 255 gs rows hwf hconf hB (fun j _ => int64Codec_ok (delta j) lvComp comp decomp hcmp) hdom hcuts
+
+/-! ### non-vacuity: a nested schema (required, optional, repeated group with an optional leaf), three
+rows with nulls, an empty list and the extreme INT64 pattern, two row groups, two pages per chunk in
+the first, the first page dictionary-encoded and the second after the fallback -/
+section Witness
+def witnessSchema : Node :=
+  .group (.cons .leaf (.cons (.opt .leaf) (.cons (.rpt (.group (.cons .leaf (.cons (.opt .leaf) .nil)))) .nil)))
+def witnessRows : List Val :=
+  [ .struct [.prim 1, .none, .list []],
+    .struct [.prim 2, .some (.prim 7),
+      .list [.struct [.prim 3, .none], .struct [.prim 4, .some (.prim (2 ^ 64 - 1))]]],
+    .struct [.prim 2, .some (.prim 7), .list [.struct [.prim 5, .some (.prim 0)]]] ]
+def witnessGroups : List GroupCfg := [{ rows := 2, col := fun j => ⟨[1], j⟩ }]
+
+example : wfN witnessSchema = true ∧ (∀ v ∈ witnessRows, confN witnessSchema v = true) ∧
+    levelsBounded 255 witnessSchema = true ∧
+    (∀ v ∈ witnessRows, valsIn (fun _ => isInt64) 0 (shredN witnessSchema 0 0 0 v) = true) ∧
+    cutsAligned witnessSchema witnessGroups witnessRows = true := by decide
+
+/-- all hypotheses at once: the instantiated theorem applies to the witness (odd columns DELTA, even
+    columns PLAIN, uncompressed v2-style layout) -/
+example : readFile witnessSchema (fun j => int64Codec (j % 2 == 1) false id some)
+    (writeFile witnessSchema (fun j => int64Codec (j % 2 == 1) false id some) witnessGroups witnessRows) =
+      some witnessRows :=
+  roundtrip_int64 witnessSchema (fun j => j % 2 == 1) false id some (fun _ => rfl) witnessGroups witnessRows
+    (by decide) (by decide) (by decide) (by decide) (by decide)
+
+/-- a cut inside a row is rejected by the well-formedness predicate -/
+example : cutsAligned witnessSchema [{ rows := 2, col := fun _ => ⟨[1, 1], 0⟩ }] witnessRows = false := by
+  decide
+end Witness
 
 end PqModel.Props.C01
